@@ -107,6 +107,52 @@ class HKey:
 _WORDS = ['zeta', 'alpha', 'mu', 'b', 'a', 'Z', 'aa', 'key', 'x1', 'x10', 'x2', 'omega', '', ' sp', 'Ünï', 'k_9']
 
 # key styles: name -> (generator of n distinct keys, totally_ordered?, literal_repr?)
+class IntSub(int):
+    """int subclass key: orders with ints, but has its own type name in the (type name, key) fallback."""
+
+    __slots__ = ()
+
+    def __repr__(self):
+        return f'IntSub({int(self)})'
+
+
+class StrSub(str):
+    __slots__ = ()
+
+    def __repr__(self):
+        return f'StrSub({str(self)!r})'
+
+
+def _same_name_class(tag):
+    """Two distinct classes with the SAME module and qualified name: ordered within a class, unorderable across."""
+
+    class SameName:
+        __slots__ = ('v',)
+
+        def __init__(self, v):
+            self.v = v
+
+        def __hash__(self):
+            return hash((tag, self.v))
+
+        def __eq__(self, o):
+            return type(o) is type(self) and o.v == self.v
+
+        def __lt__(self, o):
+            if type(o) is not type(self):
+                return NotImplemented
+            return self.v < o.v
+
+        def __repr__(self):
+            return f'SameName{tag}({self.v})'
+
+    SameName.__qualname__ = 'SameName'
+    return SameName
+
+
+SameNameA, SameNameB = _same_name_class('A'), _same_name_class('B')
+
+
 KEY_STYLES = (
     'str',
     'int',
@@ -126,6 +172,8 @@ KEY_STYLES = (
     'nan_mixed',  # ints + floats + NaNs + a late str: the plain sort fails half-way, the fallback has ties
     'fs_mixed',  # frozensets (partial order) + ints + strs
     'tie_mixed',  # user keys that never order (no TypeError) + ints + strs
+    'subclassed',  # ints, strs and instances of int / str subclasses: the fallback groups by the exact class name
+    'samename',  # keys of two classes sharing one qualified name: the (type name, key) fallback compares them and fails
 )
 TOTAL_STYLES = {'str', 'int', 'intstr', 'tuple', 'float', 'bytes', 'mixed4', 'okey', 'hkey', 'bool'}
 LITERAL_STYLES = {'str', 'int', 'intstr', 'tuple', 'float', 'bytes', 'mixed4', 'bool'}
@@ -215,6 +263,24 @@ def gen_keys(rng: random.Random, n: int, style: str):
                 add(rng.randrange(20))
             elif len(out) >= n // 2:
                 add(rng.choice(_WORDS) + str(rng.randrange(10)))
+        elif style == 'subclassed':
+            r = rng.random()
+            if r < 0.3:
+                add(rng.randrange(30))
+            elif r < 0.55:
+                add(IntSub(rng.randrange(30)))
+            elif r < 0.8:
+                add(rng.choice(_WORDS))
+            else:
+                add(StrSub(rng.choice(_WORDS) + 'S'))
+        elif style == 'samename':
+            r = rng.random()
+            if r < 0.4:
+                add(SameNameA(rng.randrange(50)))
+            elif r < 0.8:
+                add(SameNameB(rng.randrange(50)))
+            else:
+                add(rng.randrange(30))
         else:
             raise ValueError(style)
     rng.shuffle(out)
